@@ -40,23 +40,38 @@ from unified_planning.plans.hierarchical_plan import MethodInstance, Decompositi
 from unified_planning.model.htn.hierarchical_problem import HierarchicalProblem
 
 
+def _parse_bounds(s: str, prefix: str) -> Tuple[Optional[str], Optional[str]]:
+    """
+    Splits the `[lower, upper]` suffix of a bounded numeric type written as
+    `<prefix>lower, upper]` into its two bounds; an infinite bound is `None`.
+    """
+    assert s.endswith("]"), f"Malformed bounded type: {s}"
+    str_lb, sep, str_ub = s[len(prefix) : -1].partition(", ")
+    assert sep == ", ", f"Malformed bounded type: {s}"
+    return (
+        None if str_lb == "-inf" else str_lb,
+        None if str_ub == "inf" else str_ub,
+    )
+
+
 def convert_type_str(s: str, problem: Problem) -> model.types.Type:
     if s == "up:bool":
         return problem.environment.type_manager.BoolType()
     elif s == "up:integer":
         return problem.environment.type_manager.IntType()
-    elif "up:integer[" in s:
-        str_lb = s.split("[")[1].split(",")[0]
-        lb = None if "-inf" in str_lb else int(str_lb)
-        str_ub = s.split(",")[1].split("]")[0]
-        ub = None if "inf" in str_ub else int(str_ub)
-        return problem.environment.type_manager.IntType(lb, ub)
+    elif s.startswith("up:integer["):
+        str_lb, str_ub = _parse_bounds(s, "up:integer[")
+        return problem.environment.type_manager.IntType(
+            None if str_lb is None else int(str_lb),
+            None if str_ub is None else int(str_ub),
+        )
     elif s == "up:real":
         return problem.environment.type_manager.RealType()
-    elif "up:real[" in s:
+    elif s.startswith("up:real["):
+        str_lb, str_ub = _parse_bounds(s, "up:real[")
         return problem.environment.type_manager.RealType(
-            lower_bound=fractions.Fraction(s.split("[")[1].split(",")[0]),
-            upper_bound=fractions.Fraction(s.split(",")[1].split("]")[0]),
+            lower_bound=None if str_lb is None else fractions.Fraction(str_lb),
+            upper_bound=None if str_ub is None else fractions.Fraction(str_ub),
         )
     else:
         assert not s.startswith("up:"), f"Unhandled builtin type: {s}"
